@@ -69,6 +69,7 @@ DEFAULT_PROFILE: Dict[str, Any] = {
     'method_alias_reexport': 0.0,  # `meth = K.meth` at module level and re-exported (finding C02-4)
     'module_reexport': 0.0,   # `from . import sub` with 'sub' in __all__
     'tc_guard': 0.1,          # probability an import sits under `if TYPE_CHECKING:`
+    'var_ann': 0.0,           # probability that a variable is annotated with a class visible in its scope
     'max_modules': 9,
 }
 
@@ -295,10 +296,15 @@ class _Gen:
             self.cns[outer][name] = ['d', fid_]
         return st
 
-    def mk_var(self, rng: Rng, mod: str, outer: Optional[int] = None) -> Dict[str, Any]:
+    def mk_var(self, rng: Rng, mod: str, outer: Optional[int] = None,
+               scope_ns: Optional[Dict[str, List[Any]]] = None) -> Dict[str, Any]:
         vid = self.fid()
         name = f'v{vid}'
         st = {'k': 'var', 'id': vid, 'name': name, 'ann': None}
+        if self.p.get('var_ann', 0) and rng.chance(self.p['var_ann']):
+            cands = self.class_refs(rng, mod, scope_ns if scope_ns is not None else self.ns[mod], outer)
+            if cands:
+                st['ann'] = dict(rng.choice(cands))
         self.defs[vid] = {'kind': 'var' if outer is None else 'cvar', 'name': name, 'module': mod, 'outer': outer}
         if outer is not None:
             self.defs[outer]['members'][name] = vid
@@ -524,7 +530,7 @@ class _Gen:
                 elif kind == 'func':
                     st = self.mk_func(rng, mod)
                 else:
-                    st = self.mk_var(rng, mod)
+                    st = self.mk_var(rng, mod, scope_ns=ns)
                 ns[st['name']] = ['d', st['id']]
                 self._routes[(mod, st['name'])] = 'local'
                 body.append(st)
@@ -919,6 +925,8 @@ def render_stmt(st: Dict[str, Any], indent: str, out: List[str], in_class: bool 
             params = []
         for pn, r in (st.get('ann') or {}).items():
             params.append(f'{pn}: {_q(r)}')
+        for pn in st.get('params', []):
+            params.append(pn)
         ret = f' -> {_q(st["ret"])}' if st.get('ret') else ''
         out.append(f'{indent}def {st["name"]}({", ".join(params)}){ret}:\n')
         if not st.get('nodoc'):
